@@ -152,6 +152,10 @@ func runSleep(p SleepPlan) (vk.Outcome, error) {
 			}
 			return
 		}
+		if isTooSoon && tooSoon.Error() == "" {
+			fail("DeadlineTooSoonError has an empty message")
+			return
+		}
 		if tooSoonExpected {
 			if !isTooSoon || elapsed != 0 {
 				fail("deadline %v is closer than d: want DeadlineTooSoonError immediately", time.Duration(p.Deadline))
